@@ -603,7 +603,9 @@ def run(tier, seed):
           ('rgb', 'units rgb time %d on all time %d off all on "A"' % (S + 1, S + 2), [1, 2], [[1], [1, 2], [1, 2, 2]], 'rgb-seconds'),
           ('rgb', 'time %d units rgb on all units logical off all' % (S + 1), [1], [[1], [1, 1]], 'switch-to-rgb-keeps-delay'),
           ('logical', 'time %d repeat 2 begin on all end' % (S + 1), [1], [[1], [1, 1]], 'loop'),
-          ('logical', 'time %d on all units raw off all' % (S + 1), [1], [[1], [1, 1]], 'switch-to-raw-keeps-delay')]
+          ('logical', 'time %d on all units raw off all' % (S + 1), [1], [[1], [1, 1]], 'switch-to-raw-keeps-delay'),
+          ('raw', 'units raw duration 700 time %d on all units logical off all units rgb on "A"' % (S + 1), [1], [[1], [1, 1], [1, 1, 1]], 'switch-from-raw-keeps-delay'),
+          ('logical', 'duration 3 time %d on all units raw units logical off all units rgb units raw on "A"' % (S + 1), [1], [[1], [1, 1], [1, 1, 1]], 'round-trips-keep-delay')]
     for mode, text, sids, due, tag in vm:
         items.append({'kind': 'vm', 'mode': mode, 'text': text, 'sids': sids, 'due': due, 'tag': tag,
                       'max_paths': 2000 if q else 20000, 'budget_s': 25 if q else 200})
